@@ -583,6 +583,9 @@ def check_L10(ctx, rep):
     if check_bound_tests(cr, rep) < 3:
         from core import Broken
         raise Broken('L10.B: fewer than 3 comparisons against a const generic bound found (BoundedSet expected)')
+    if check_set_order(cr, rep) < 2:
+        from core import Broken
+        raise Broken('L10.SO: Set::partial_cmp with a Less and a Greater answer not found')
     if check_flag_across_swap(cr, rep) < 1:
         from core import Broken
         raise Broken('L10.W: no *_mut operation that swaps the receiver found (Set::join_mut expected)')
@@ -1078,4 +1081,43 @@ def check_flag_across_swap(cr, rep):
                          'the receiver is swapped with the argument and the change flag is computed from what happens afterwards only: when the '
                          'receiver was the smaller side (a strict subset), nothing new is inserted after the swap and the operation reports '
                          '"unchanged" although the receiver grew', loc=cr.loc(r))
+    return n
+
+
+# ------------------------------------------------------------------ L10.SO  the inclusion order is decided by containment
+
+def check_set_order(cr, rep):
+    """`Set`'s order is inclusion: `partial_cmp` answers Less / Greater only where a containment test (`is_subset` / `is_superset`)
+    holds on that path. A comparison of sizes is a necessary, not a sufficient, condition: {0,1} and {2} are incomparable."""
+    from guards import conds_at
+    n = 0
+    for path, b in sorted(cr.bodies.items()):
+        if b['name'] != 'partial_cmp' or 'lattice::set::Set<' not in path or not (b.get('trait_of') or '').endswith('cmp::PartialOrd'):
+            continue
+        rep.functions.add(path)
+        for x, parents in walk(b['tree']):
+            if x.get('k') != 'path' or x.get('res') != 'def':
+                continue
+            d = x.get('d') or ''
+            if not d.endswith(('Ordering::Less', 'Ordering::Greater')):
+                continue
+            which = d.split('::')[-1]
+            want = 'is_subset' if which == 'Less' else 'is_superset'
+            other = 'is_superset' if which == 'Less' else 'is_subset'
+            ok = False
+            for c, pol in conds_at(parents, x):
+                for y, _ in walk(c):
+                    if y.get('k') == 'mcall' and pol:
+                        rself = (root_local(y['r']) or {}).get('n')
+                        if y['m'] == want and rself == 'self':
+                            ok = True
+                        if y['m'] == other and rself == 'other':
+                            ok = True
+            n += 1
+            rep.inst('L10.SO', '%s: Ordering::%s is answered under a containment test: %s' % (path, which, ok))
+            if not ok:
+                rep.viol('L10', path, 'order-without-containment:' + which,
+                         '`Set::partial_cmp` answers %s on a path where no containment test (`%s`) holds - e.g. from a comparison of sizes: '
+                         'incomparable sets are ordered, and everything that trusts the order (Rc / Arc wrappers, Product) joins wrongly' % (which, want),
+                         loc=cr.loc(x))
     return n
